@@ -576,6 +576,7 @@ func Run(c *fw.Ctx) {
 	n := c.N(1500, 120000)
 	c.Parallel(n, func(i int) { runCase(c, i) })
 	c.Parallel(c.N(300, 16000), func(i int) { runHTMLCase(c, i) })
+	c.Parallel(c.N(300, 12000), func(i int) { runOfficeCase(c, i) })
 	fixedCases(c)
 	if c.Only == "" && c.Evaluations() < int64(n) {
 		c.Inconclusive("fewer cases executed than planned")
